@@ -7,7 +7,7 @@ from ..core import AnalysisError, norm, walk_no_nested
 from . import common
 
 META = {
-    'design_ref': 'DESIGN.md §3 C14',
+    'design_ref': 'DESIGN.md §5 C14',
     'technique': 'regular-language equivalence (DFA built from the regex literal and the raise conditions on the paths of _set_full_version, locals substituted away, vs. the Policy 5.6.12 grammar), marked-language inclusion against the recomposition template extracted from _update_full_version, path rule check-then-commit',
     'level_text': 'Static decision, for all strings over a symbolic alphabet that separates newline, blank, "_", '
                   'non-ASCII digits/letters: the accepted set of the constructor equals the Policy grammar; every '
